@@ -42,8 +42,24 @@ def run(prog, chk):
     t = sp.Symbol('t', real=True)
     refs = KS.references(t)
     single = {}
+    routed = {}     # gate name → (helper fn, call node in the gate) when the gate reaches the applicator through one private helper
     for name, g in gates.items():
         calls = [n for n in SX.walk(g.body) if n['k'] == 'mcall' and n['callee'] == app.name]
+        if not calls:
+            # `void h(int q) { applyNamedGate("h", q, hadamardMatrix()); }` — the helper applies its own (qubit, matrix) parameters
+            for n in SX.walk(g.body, into_lambdas=False):
+                if n['k'] == 'mcall' and n.get('callee', '').startswith(R.sim['name'] + '::') and n['callee'] != app.name:
+                    for h_ in prog.resolve(n):
+                        hc = [x for x in SX.walk(h_.body, into_lambdas=False) if x['k'] == 'mcall' and x['callee'] == app.name] if h_.body else []
+                        if len(hc) == 1:
+                            ha = SX.real_args(hc[0])
+                            pq = [i for i, p_ in enumerate(h_.params) if SX.strip(ha[0]).get('id') == p_['id']]
+                            pm = [i for i, p_ in enumerate(h_.params) if SX.strip(ha[1]).get('id') == p_['id']]
+                            if len(pq) == 1 and len(pm) == 1:
+                                ga_ = SX.real_args(n)
+                                # a synthetic applicator call with the gate's own arguments
+                                routed[name] = (h_, n)
+                                calls = [{'k': 'mcall', 'callee': app.name, 'args': [ga_[pq[0]], ga_[pm[0]]], 'ln': n.get('ln')}]
         if not calls:
             continue
         single[name] = (g, calls)
@@ -67,7 +83,7 @@ def run(prog, chk):
                 if s['k'] == 'decls':
                     for v in s['d']:
                         if 'std::array<std::complex<double>, 4' in v['type']:
-                            M = KS.matrix_from_initlist(SX.strip(v['init']), env)
+                            M = _matrix_of(prog, KS, SX.strip(v['init']), env)
                             env[v['id']] = M
                         elif v.get('init') is not None:
                             env[v['id']] = KS.to_sympy(v['init'], env)
@@ -77,7 +93,7 @@ def run(prog, chk):
             if SX.is_node(marg) and marg['k'] == 'ref':
                 M = env.get(marg.get('id'))
             elif SX.is_node(marg):
-                M = KS.matrix_from_initlist(marg, env)
+                M = _matrix_of(prog, KS, marg, env)
             if M is None:
                 raise KS.Unfoldable('matrix argument not resolved')
             qok = SX.is_node(SX.strip(a[0])) and SX.strip(a[0]).get('id') == qparam['id']
@@ -103,11 +119,75 @@ def run(prog, chk):
     _dispatch_rule(prog, chk, R, gates)
 
 
+def _matrix_of(prog, KS, e, env, depth=0):
+    """2x2 matrix denoted by an expression: a 4-entry initialiser, or a call of a matrix-building helper whose body is
+    declarations, `if (param == Constant) return …;` selections and a final return (evaluated with the call's arguments)"""
+    e = SX.strip(e)
+    if SX.is_node(e) and e.get('k') in ('initlist', 'construct') and len((e.get('items') if e['k'] == 'initlist' else SX.real_args(e)) or []) == 4:
+        return KS.matrix_from_initlist(e, env)
+    if SX.is_node(e) and e.get('k') == 'construct' and len(SX.real_args(e)) == 1:
+        return _matrix_of(prog, KS, SX.real_args(e)[0], env, depth)
+    if SX.is_node(e) and e.get('k') == 'ref' and e.get('id') in env:
+        return env[e['id']]
+    if SX.is_node(e) and e.get('k') in ('call', 'mcall') and depth < 3:
+        fs = [f for f in prog.resolve(e) if f.body]
+        if len(fs) != 1:
+            raise KS.Unfoldable('matrix helper %s not resolved' % SX.callee(e))
+        h = fs[0]
+        henv = {}
+        consts = {}
+        for p_, a_ in zip(h.params, SX.real_args(e)):
+            a1 = SX.strip(a_)
+            if SX.is_node(a1) and a1.get('k') == 'ref' and a1.get('kind') == 'enum':
+                consts[p_['id']] = a1['name']
+            else:
+                henv[p_['id']] = KS.to_sympy(a_, env)
+
+        def decide(c):
+            cp = SX.cmp_parts(c)
+            if cp and cp[0] in ('==', '!='):
+                l, r = SX.strip(cp[1]), SX.strip(cp[2])
+                for x, y in ((l, r), (r, l)):
+                    if SX.is_node(x) and x.get('k') == 'ref' and x.get('id') in consts and SX.is_node(y) and y.get('k') == 'ref' and y.get('kind') == 'enum':
+                        return (consts[x['id']] == y['name']) == (cp[0] == '==')
+            raise KS.Unfoldable('condition %s in matrix helper' % SX.show(c)[:40])
+
+        def run(stmts):
+            for s_ in stmts:
+                k = s_['k']
+                if k == 'decls':
+                    for v in s_['d']:
+                        if v.get('init') is not None:
+                            henv[v['id']] = KS.to_sympy(v['init'], henv)
+                elif k == 'if':
+                    br = s_['t'] if decide(s_['c']) else s_.get('e')
+                    if br is not None:
+                        r_ = run(br['body'] if br.get('k') == 'block' else [br])
+                        if r_ is not None:
+                            return r_
+                elif k == 'return':
+                    return _matrix_of(prog, KS, s_['e'], henv, depth + 1)
+                elif k == 'switch':
+                    raise KS.Unfoldable('switch in matrix helper')
+                elif k in ('null',):
+                    pass
+                else:
+                    raise KS.Unfoldable('statement %s in matrix helper' % k)
+            return None
+        m = run(h.body['body'] if h.body.get('k') == 'block' else [h.body])
+        if m is None:
+            raise KS.Unfoldable('matrix helper %s returns nothing on this selection' % h.short)
+        return m
+    raise KS.Unfoldable('matrix expression %s' % SX.show(e)[:40])
+
+
 def _flat_applicator(prog, chk, app, loop, amp, q, marr, sp, KS):
     """`for (i = 0; i < n; ++i) { if (i & bit) continue; a0 = s[i]; a1 = s[i|bit]; s[i] = …; s[i|bit] = …; }` — evaluated per pair
     with the K-PAIR transformer kernel; True when the loop has this form (obligations emitted), False to fall back"""
     from .. import kpair as KP
-    fl = KP.full_state_loop(loop, amp)
+    aliases = KP.size_aliases(app.body, amp)
+    sw = KP.state_sweep(loop, amp, (), aliases)
+    fl = (sw[1], sw[2]) if sw and sw[0] == 'flat' else None
     if fl is None:
         why = KP.partial_state_loop(loop, amp)
         if why:
@@ -339,6 +419,49 @@ def _apply_rule(prog, chk, R, app, amp, sp, KS):
             chk.ob('R01.2', app, app.ln, e1 == 0, 'cell with bit q set receives m[2]·a0 + m[3]·a1 of the PRE-update amplitudes (difference %s)' % e1, key='apply:row1')
 
 
+def _cx_flat(prog, chk, cx, loop, amp, c, t):
+    """cx written as one flat sweep with two bit tests: evaluated per four-cell group (control bit, target bit) for both
+    orders in which the sweep can meet the cells; True when handled"""
+    from .. import kpair as KP
+    sw = KP.state_sweep(loop, amp, (), KP.size_aliases(cx.body, amp))
+    if not sw or sw[0] != 'flat':
+        return False
+    F = KT.Folder()
+    cb, tb = [], []
+    for s_ in cx.body['body']:
+        if s_['k'] == 'decls':
+            for v in s_['d']:
+                try:
+                    term = F.fold(v['init'])
+                except KT.Unfoldable:
+                    continue
+                F.env[v['id']] = term
+                if term == KT.op('<<', KT.I(1), KT.S(c['name'])):
+                    cb.append(v['id'])
+                if term == KT.op('<<', KT.I(1), KT.S(t['name'])):
+                    tb.append(v['id'])
+    if not cb or not tb:
+        return False
+    cells = [(0, 0), (0, 1), (1, 0), (1, 1)]
+    want = {(0, 0): 'S00', (0, 1): 'S01', (1, 0): 'S11', (1, 1): 'S10'}
+    it = KP.QuadIter(amp, sw[1]['id'], cb, tb)
+    for lt, order in ((True, [(0, 0), (1, 0), (0, 1), (1, 1)]), (False, [(0, 0), (0, 1), (1, 0), (1, 1)])):
+        state = {x: 'S%d%d' % x for x in cells}
+        try:
+            for cur in order:
+                state = it.run(sw[2], cur, state)
+        except KP.OutsidePair as e:
+            chk.ob('R01.3', cx, loop.get('ln', cx.ln), False, 'cx touches only the cells of the current (control, target) group: %s' % e, key='cx:pair:' + ('control<target' if lt else 'control>target'))
+            continue
+        except KP.NotPairwise:
+            return False
+        chk.ob('R01.3', cx, loop.get('ln', cx.ln), state == want,
+               '[%s] flat sweep: the group (control,target) ∈ {00,01,10,11} ends as %s; cx swaps exactly 10 ↔ 11' % ('control<target' if lt else 'control>target', state),
+               key='cx:pair:' + ('control<target' if lt else 'control>target'))
+    chk.ob('R01.5', cx, loop.get('ln', cx.ln), True, 'cx sweeps [0, %s.size()) once' % amp, key='cx:flat-sweep')
+    return True
+
+
 def _cx_rule(prog, chk, R, cx, amp):
     c, t = cx.params[0], cx.params[1]
     C, T = KT.S(c['name']), KT.S(t['name'])
@@ -348,6 +471,9 @@ def _cx_rule(prog, chk, R, cx, amp):
     loops = [s for s in stmts if s['k'] == 'for']
     if len(loops) != 1:
         raise AnalysisBroken('cx: expected one outer loop')
+    inner_loops = [x for x in SX.walk(loops[0]['body'], into_lambdas=False) if x['k'] in ('for', 'while', 'forrange')]
+    if not inner_loops and _cx_flat(prog, chk, cx, loops[0], amp, c, t):
+        return
     for case, lt in (('control<target', True), ('control>target', False)):
         def facts(term, lt=lt):
             # resolve comparisons between control and target (and derived low/high) under the case hypothesis
